@@ -110,7 +110,7 @@ def body(case):
             continue
         one = model.ref_schema_validate(SchemaT([rl]), doc)
         try:
-            rt = build.build_rule(rl).test(doc)
+            rt = build.build_rule(rl).test(ns.da.Data(doc) if not wrap else doc)
         except Exception as e:
             out.exc("no-raise|rule-test", e)
             break
